@@ -1,18 +1,34 @@
 // Check C20: strict mode refuses every insecure configuration it documents.
+//
+// Part 1 (assembled system): every generated configuration is started as a user would start it - `nuts server` with a command
+// line, NUTS_* environment variables and a configuration file - in its own child process (a refused start ends in os.Exit(1)).
+// The child reports: start-up refused (with the error, whether /status had ever been reachable and whether a listener accepted
+// connections at the moment of the refusal) or node running (GET /status = 200), and then, on the running node, what the
+// action-level settings do (dummy authentication means, remote JSON-LD contexts, outbound URL classes through the node's HTTP
+// clients with all connections routed to listeners inside the child that record what they receive).
+// Part 2 (outbound_test.go): the real http/client constructors against recording listeners, strict mode on and off, cache on and off,
+// redirect chains that end on plain HTTP.
+//
+// The oracle is a reference predicate written from the documented list (docs/pages/deployment/configuration.rst "Strict mode" and
+// "Secrets", storage.rst, the option descriptions, security_model.rst and the property statement), not from the code.
 package c20
 
 import (
-	"encoding/json"
 	"fmt"
-	"net"
+	"math/rand"
+	"net/http"
+	"net/http/httptest"
 	"os"
 	"path/filepath"
 	"sort"
 	"strings"
 	"sync"
 	"testing"
-	"time"
 
+	"github.com/nuts-foundation/nuts-node/cmd"
+	"github.com/spf13/pflag"
+	"gopkg.in/yaml.v3"
+	"verif/lib/ev"
 	"verif/lib/worker"
 )
 
@@ -21,185 +37,960 @@ func TestMain(m *testing.M) {
 	worker.Main(m)
 }
 
-// ---- launching one configuration ---------------------------------------------------------------------
+// ---- the configuration space -------------------------------------------------------------------------------
 
-// launch is everything a user would supply: command line, environment, configuration file.
-type launch struct {
-	Args []string          // after the program name
-	Env  map[string]string // NUTS_* variables
-	Yaml string            // content of the configuration file
-	Spec childSpec
+type factor struct {
+	name   string
+	quick  []string
+	beyond []string // additional values in the thorough tier
 }
 
-// observation is what the child reported.
-type observation struct {
-	Refused        bool // fatal log entry (process exit 1) before the node ran
-	RefusalMsg     string
-	EverReachable  bool // /status answered before the refusal
-	ListenerAtExit bool
-	Running        bool
-	ClientStrict   bool
-	ConfigStrict   bool
-	Stopped        bool
-	ExitedMsg      string // cmd.Execute returned without fatal and without running
-	Exited         bool
-	Probes         []ledgerLine
-	Raw            []string
-	ExitCode       int
-	Output         string
-	TimedOut       bool
+var factors = []factor{
+	{"strictmode", []string{"unset", "true", "false"}, nil},
+	{"url", []string{"https-domain", "http-domain", "https-ip", "https-localhost", "https-reserved", "empty"}, []string{"http-localhost"}},
+	{"tls", []string{"full", "none", "partial", "legacy"}, nil},
+	{"crypto.storage", []string{"unset", "fs", "vaultkv"}, []string{"external"}},
+	{"storage.sql.connection", []string{"unset", "sqlite-file"}, []string{"sqlite-memory"}},
+	{"auth.contractvalidators", []string{"default", "dummy", "irma", "employeeid"}, []string{"irma+employeeid", "uzi"}},
+	{"auth.irma.schememanager", []string{"unset", "pbdf", "irma-demo"}, nil},
+	{"jsonld.contexts.remoteallowlist", []string{"default", "empty", "custom"}, nil},
+	{"didmethods", []string{"unset", "web", "nuts", "web+nuts"}, []string{"nuts+web"}},
+	{"channel", []string{"file", "env", "flags", "mixed"}, nil},
+	{"secret", []string{"none", "env", "file", "cli"}, nil},
 }
 
-var portMu sync.Mutex
-var usedPorts = map[int]bool{}
+const (
+	fStrict = iota
+	fURL
+	fTLS
+	fCrypto
+	fSQL
+	fValidators
+	fIrma
+	fJSONLD
+	fDID
+	fChannel
+	fSecret
+)
 
-func freePort() int {
-	portMu.Lock()
-	defer portMu.Unlock()
-	for i := 0; i < 100; i++ {
-		l, err := net.Listen("tcp", "127.0.0.1:0")
+func values(f int, thorough bool) []string {
+	v := append([]string{}, factors[f].quick...)
+	if thorough {
+		v = append(v, factors[f].beyond...)
+	}
+	return v
+}
+
+// config is one point of the product plus the concrete variants chosen for it.
+type config struct {
+	V        [11]string // value per factor
+	URL      string     // concrete url for the class
+	TLSVar   string     // variant of partial / legacy
+	CLIFlag  string     // the secret flag put on the command line (secret=cli)
+	Group    string     // generator that produced the case
+	ChanSeed int64      // per-option channel choice for channel=mixed
+}
+
+func (c config) strict() bool { return c.V[fStrict] != "false" }
+func (c config) nuts() bool   { return c.V[fDID] != "web" }
+
+func (c config) fingerprint() string {
+	return strings.Join(c.V[:], "|") + "|" + c.URL + "|" + c.TLSVar + "|" + c.CLIFlag
+}
+
+var urlVariants = map[string][]string{
+	"https-domain":    {"https://node.zorgverlener.nl", "https://nuts.zorgverlener.nl:8443", "https://zorgverlener.nl/nuts", "https://NODE.Zorgverlener.NL"},
+	"http-domain":     {"http://node.zorgverlener.nl", "http://nuts.zorgverlener.nl:8080"},
+	"https-ip":        {"https://192.0.2.15", "https://10.0.0.5:8443", "https://[2001:db8::15]", "https://127.0.0.1"},
+	"https-localhost": {"https://localhost", "https://localhost:8443"},
+	"https-reserved": {"https://node.local", "https://nuts.test", "https://node.example", "https://www.example.com", "https://nuts.example.org", "https://nuts.example.net",
+		"https://node.invalid", "https://nuts.lan", "https://nuts.home", "https://node.corp", "https://nuts.localdomain", "https://node.localhost", "https://NUTS.LOCAL"},
+	"http-localhost": {"http://localhost:8080", "http://127.0.0.1:8080"},
+	"empty":          {""},
+}
+
+var tlsVariants = map[string][]string{
+	"full":    {""},
+	"none":    {""},
+	"partial": {"cert-only", "key-only", "no-truststore", "truststore-only"},
+	"legacy":  {"network.certfile", "network.certkeyfile", "network.truststorefile", "network.all", "network.all+tls"},
+}
+
+// secretFlags are the options the documentation calls secrets ("All options ending with token or password"), taken from the
+// flag set of the real server command.
+func secretFlags() (secret []string, all int) {
+	system := cmd.CreateSystem(func() {})
+	root := cmd.CreateCommand(system)
+	for _, sub := range root.Commands() {
+		if sub.Name() == "server" {
+			sub.Flags().VisitAll(func(f *pflag.Flag) {
+				all++
+				if strings.HasSuffix(f.Name, "token") || strings.HasSuffix(f.Name, "password") {
+					secret = append(secret, f.Name)
+				}
+			})
+		}
+	}
+	sort.Strings(secret)
+	return
+}
+
+func pick(rnd *rand.Rand, xs []string) string { return xs[rnd.Intn(len(xs))] }
+
+// concretise chooses the variants of a config (seeded).
+func concretise(c *config, rnd *rand.Rand, secrets []string) {
+	c.URL = pick(rnd, urlVariants[c.V[fURL]])
+	c.TLSVar = pick(rnd, tlsVariants[c.V[fTLS]])
+	if c.V[fSecret] == "cli" {
+		c.CLIFlag = pick(rnd, secrets)
+	}
+	c.ChanSeed = rnd.Int63()
+}
+
+// ---- the reference: what the documents promise -----------------------------------------------------------
+
+type expectation struct {
+	mustRefuse  bool            // start-up has to be refused with an error
+	mayRefuse   bool            // the documents do not decide (invalid rather than insecure setting, or an explicitly unspecified combination)
+	allowed     map[string]bool // classes of refusal that the reference can explain for this configuration
+	reasons     []string        // why mustRefuse
+	unspecified []string
+}
+
+// reference is written from the documentation, per option:
+//   - "Secrets": options ending with token/password can only be set through environment or config file      -> refused on the command line, any mode
+//   - server_config: network.{truststorefile,certkeyfile,certfile} have moved to tls.*                            -> refused in any mode
+//   - url: "Public facing URL of the server (required). Must be HTTPS when strictmode is set"; property: not an IP, not a reserved host
+//   - "Strict mode": crypto.storage and storage.sql.connection must explicitly be set
+//   - "Strict mode": requires TLS to be configured through tls.{certfile,certkeyfile,truststore} (consumer: the gRPC network = did:nuts)
+//   - "Strict mode": requires auth.irma.schememanager=pbdf
+//   - "Strict mode": dummy is ignored, JSON-LD contexts only from the allow list, plain HTTP refused            -> node runs, the action is refused
+func reference(c config) expectation {
+	e := expectation{allowed: map[string]bool{}}
+	always := func(class, why string) {
+		e.mustRefuse, e.allowed[class] = true, true
+		e.reasons = append(e.reasons, why)
+	}
+	insecure := func(class, why string) {
+		e.allowed[class] = true
+		if c.strict() {
+			e.mustRefuse = true
+			e.reasons = append(e.reasons, why)
+		}
+	}
+	if c.V[fSecret] == "cli" {
+		always("cli-secret", "secret on the command line")
+	}
+	if c.V[fTLS] == "legacy" {
+		always("moved-key", "moved key "+c.TLSVar)
+	}
+	switch c.V[fURL] {
+	case "http-domain", "http-localhost":
+		insecure("url", "url is not https")
+	case "https-ip":
+		insecure("url", "url names an IP address")
+		if !c.strict() && strings.Contains(c.URL, "[") {
+			// the node derives its root did:web from the url; an IPv6 literal has no did:web form. Not an insecurity the documents list: counted, not judged
+			e.mayRefuse = true
+			e.allowed["url-no-did-web-form"] = true
+			e.unspecified = append(e.unspecified, "non-strict: IPv6 literal url has no did:web form")
+		}
+	case "https-localhost", "https-reserved":
+		insecure("url", "url names a reserved host")
+	case "empty":
+		// required option: refusing is right in both modes; in strict mode an absent url is also "not HTTPS"
+		insecure("url", "url is not configured")
+		if !c.strict() {
+			e.mayRefuse = true
+			e.unspecified = append(e.unspecified, "non-strict: required option url absent")
+		}
+	}
+	if c.V[fCrypto] == "unset" {
+		insecure("crypto-storage", "crypto.storage implicit")
+	}
+	if c.V[fSQL] == "unset" {
+		insecure("sql", "storage.sql.connection implicit")
+	}
+	if c.V[fIrma] == "irma-demo" {
+		insecure("irma-scheme", "auth.irma.schememanager is not pbdf")
+	}
+	tlsOff := c.V[fTLS] == "none" || c.V[fTLS] == "legacy" && c.TLSVar != "network.all+tls" || c.V[fTLS] == "partial" && c.TLSVar == "truststore-only"
+	tlsBroken := c.V[fTLS] == "partial" && c.TLSVar != "truststore-only"
+	if tlsOff {
+		if c.nuts() {
+			insecure("tls-off", "network TLS not configured")
+		} else if c.strict() {
+			e.allowed["tls-off"] = true
+			e.mayRefuse = true
+			e.unspecified = append(e.unspecified, "strict: TLS not configured while didmethods excludes nuts")
+		}
+	}
+	if tlsBroken {
+		// an incomplete tls.* set is invalid in any mode; in strict mode with the network enabled it is also "TLS not (fully) configured"
+		e.allowed["tls-partial"] = true
+		if c.strict() && c.nuts() {
+			e.mustRefuse = true
+			e.reasons = append(e.reasons, "tls.* incomplete ("+c.TLSVar+")")
+		} else {
+			e.mayRefuse = true
+			e.unspecified = append(e.unspecified, "incomplete tls.* set outside strict mode with did:nuts")
+		}
+	}
+	return e
+}
+
+// classify maps the error a refused start reported to the setting it is about.
+func classify(msg string) string {
+	switch {
+	case strings.Contains(msg, "is a secret"):
+		return "cli-secret"
+	case strings.Contains(msg, "have moved to tls"):
+		return "moved-key"
+	case strings.Contains(msg, "invalid 'url'"), strings.Contains(msg, "'url' must be configured"):
+		return "url"
+	case strings.Contains(msg, "backend must be explicitly set"):
+		return "crypto-storage"
+	case strings.Contains(msg, "storage.sql.connection must be set"):
+		return "sql"
+	case strings.Contains(msg, "disabling TLS in strict mode"):
+		return "tls-off"
+	case strings.Contains(msg, "irma-scheme-manager"):
+		return "irma-scheme"
+	case strings.Contains(msg, "unable to load node TLS certificate"), strings.Contains(msg, "unable to read trust store"):
+		return "tls-partial"
+	case strings.Contains(msg, "URL does not represent a Web DID"):
+		return "url-no-did-web-form"
+	case strings.Contains(msg, "address already in use"):
+		return "port"
+	case msg == "":
+		return "none"
+	}
+	return "other"
+}
+
+// ---- from a config to what the user types --------------------------------------------------------------------
+
+type option struct {
+	key   string
+	value any // string or []string
+	force string
+}
+
+type world struct {
+	vaultAddr string
+	pki       string
+}
+
+func materialise(c config, dir string, w world) launch {
+	l := launch{Env: map[string]string{}}
+	var opts []option
+	add := func(k string, v any) { opts = append(opts, option{key: k, value: v}) }
+	if c.V[fStrict] != "unset" {
+		add("strictmode", c.V[fStrict])
+	}
+	if c.V[fURL] != "empty" {
+		add("url", c.URL)
+	}
+	cert, trust := filepath.Join(w.pki, "certificate-and-key.pem"), filepath.Join(w.pki, "truststore.pem")
+	legacy := func(k string, v string) { opts = append(opts, option{key: k, value: v, force: "file-or-env"}) }
+	switch c.V[fTLS] + "/" + c.TLSVar {
+	case "full/":
+		add("tls.certfile", cert)
+		add("tls.certkeyfile", cert)
+		add("tls.truststorefile", trust)
+	case "partial/cert-only":
+		add("tls.certfile", cert)
+		add("tls.truststorefile", trust)
+	case "partial/key-only":
+		add("tls.certkeyfile", cert)
+		add("tls.truststorefile", trust)
+	case "partial/no-truststore":
+		add("tls.certfile", cert)
+		add("tls.certkeyfile", cert)
+	case "partial/truststore-only":
+		add("tls.truststorefile", trust)
+	case "legacy/network.certfile":
+		legacy("network.certfile", cert)
+	case "legacy/network.certkeyfile":
+		legacy("network.certkeyfile", cert)
+	case "legacy/network.truststorefile":
+		legacy("network.truststorefile", trust)
+	case "legacy/network.all", "legacy/network.all+tls":
+		legacy("network.certfile", cert)
+		legacy("network.certkeyfile", cert)
+		legacy("network.truststorefile", trust)
+		if c.TLSVar == "network.all+tls" {
+			add("tls.certfile", cert)
+			add("tls.certkeyfile", cert)
+			add("tls.truststorefile", trust)
+		}
+	}
+	switch c.V[fCrypto] {
+	case "fs":
+		add("crypto.storage", "fs")
+	case "vaultkv":
+		add("crypto.storage", "vaultkv")
+		add("crypto.vault.address", w.vaultAddr)
+	case "external":
+		add("crypto.storage", "external")
+		add("crypto.external.address", "http://127.0.0.1:9/keystore")
+	}
+	switch c.V[fSQL] {
+	case "sqlite-file":
+		add("storage.sql.connection", "sqlite:file:"+filepath.Join(dir, "sqlite-explicit.db")+"?_pragma=foreign_keys(1)&journal_mode(WAL)")
+	case "sqlite-memory":
+		add("storage.sql.connection", "sqlite:file::memory:?cache=shared&_pragma=foreign_keys(1)")
+	}
+	switch c.V[fValidators] {
+	case "default":
+	case "irma+employeeid":
+		add("auth.contractvalidators", []string{"irma", "employeeid"})
+	default:
+		add("auth.contractvalidators", []string{c.V[fValidators]})
+	}
+	if c.V[fIrma] != "unset" {
+		add("auth.irma.schememanager", c.V[fIrma])
+	}
+	switch c.V[fJSONLD] {
+	case "empty":
+		opts = append(opts, option{key: "jsonld.contexts.remoteallowlist", value: []string{}, force: "file"})
+	case "custom":
+		add("jsonld.contexts.remoteallowlist", []string{listedContext, "https://schema.org"})
+		l.Spec.ListedCtx = listedContext
+	}
+	switch c.V[fDID] {
+	case "web", "nuts":
+		add("didmethods", []string{c.V[fDID]})
+	case "web+nuts":
+		add("didmethods", []string{"web", "nuts"})
+	case "nuts+web":
+		add("didmethods", []string{"nuts", "web"})
+	}
+	switch c.V[fSecret] {
+	case "env":
+		opts = append(opts, option{key: "crypto.vault.token", value: "verif-vault-token", force: "env"})
+	case "file":
+		opts = append(opts, option{key: "storage.redis.password", value: "verif-redis-password", force: "file"})
+	case "cli":
+		opts = append(opts, option{key: c.CLIFlag, value: "verif-secret", force: "flags"})
+	}
+
+	rnd := rand.New(rand.NewSource(c.ChanSeed))
+	file := map[string]any{}
+	l.Args = []string{"server"}
+	for _, o := range opts {
+		ch := c.V[fChannel]
+		if ch == "mixed" {
+			ch = []string{"file", "env", "flags"}[rnd.Intn(3)]
+		}
+		switch o.force {
+		case "file", "env", "flags":
+			ch = o.force
+		case "file-or-env":
+			if ch == "flags" {
+				ch = "env"
+			}
+		}
+		switch ch {
+		case "file":
+			setPath(file, o.key, o.value)
+		case "env":
+			l.Env["NUTS_"+strings.ToUpper(strings.ReplaceAll(o.key, ".", "_"))] = joined(o.value)
+		case "flags":
+			if rnd.Intn(2) == 0 || o.key == "strictmode" { // a boolean flag takes its value only in the --flag=value form
+				l.Args = append(l.Args, "--"+o.key+"="+joined(o.value))
+			} else {
+				l.Args = append(l.Args, "--"+o.key, joined(o.value))
+			}
+		}
+	}
+	if len(file) > 0 {
+		data, err := yaml.Marshal(file)
 		if err != nil {
 			panic(err)
 		}
-		p := l.Addr().(*net.TCPAddr).Port
-		l.Close()
-		if !usedPorts[p] {
-			usedPorts[p] = true
-			return p
+		l.Yaml = string(data)
+		cfgFile := filepath.Join(dir, "nuts.yaml")
+		if err := os.WriteFile(cfgFile, data, 0o644); err != nil {
+			panic(err)
+		}
+		if c.V[fChannel] == "flags" || c.V[fChannel] == "mixed" && rnd.Intn(2) == 0 {
+			l.Args = append(l.Args, "--configfile", cfgFile)
+		} else {
+			l.Env["NUTS_CONFIGFILE"] = cfgFile
 		}
 	}
-	panic("no free port")
+	return l
 }
 
-func runChild(dir string, l launch) observation {
-	data, _ := json.Marshal(l.Spec)
-	if err := os.WriteFile(filepath.Join(dir, "spec.json"), data, 0o644); err != nil {
-		panic(err)
+const listedContext = "https://contexts.zorgverlener.nl/afspraken/v1.jsonld"
+
+func joined(v any) string {
+	if l, ok := v.([]string); ok {
+		return strings.Join(l, ",")
 	}
-	var env []string
-	keys := make([]string, 0, len(l.Env))
-	for k := range l.Env {
-		keys = append(keys, k)
-	}
-	sort.Strings(keys)
-	for _, k := range keys {
-		env = append(env, k+"="+l.Env[k])
-	}
-	res := worker.Run("c20node", []string{dir}, 150*time.Second, env...)
-	o := observation{ExitCode: res.ExitCode, Output: res.Output, TimedOut: res.TimedOut}
-	o.Raw = worker.ReadLedger(filepath.Join(dir, "ledger"))
-	for _, ln := range o.Raw {
-		var ll ledgerLine
-		if json.Unmarshal([]byte(ln), &ll) != nil {
-			continue
+	return v.(string)
+}
+
+func setPath(m map[string]any, key string, v any) {
+	parts := strings.Split(key, ".")
+	for _, p := range parts[:len(parts)-1] {
+		next, ok := m[p].(map[string]any)
+		if !ok {
+			next = map[string]any{}
+			m[p] = next
 		}
-		switch ll.Ev {
-		case "fatal":
-			o.Refused, o.RefusalMsg, o.EverReachable, o.ListenerAtExit = true, ll.Msg, ll.EverReachable, ll.ListenerAtExit
-		case "running":
-			o.Running, o.ClientStrict, o.ConfigStrict = true, ll.ClientStrict, ll.ConfiguredStrict
-		case "stopped":
-			o.Stopped = true
-		case "exited":
-			o.Exited, o.ExitedMsg = true, ll.Msg
-		case "probe":
-			o.Probes = append(o.Probes, ll)
-		}
+		m = next
 	}
-	return o
+	m[parts[len(parts)-1]] = v
 }
 
-func tail(s string, n int) string {
-	if len(s) > n {
-		return s[len(s)-n:]
-	}
-	return s
-}
-
-// TestOne runs a single hand-written configuration (debugging aid): VERIF_C20_ONE='{"Args":[...],"Env":{...},"Yaml":"..."}'
-func TestOne(t *testing.T) {
-	js := os.Getenv("VERIF_C20_ONE")
-	if js == "" {
-		t.Skip()
-	}
-	var l launch
-	if err := json.Unmarshal([]byte(js), &l); err != nil {
-		t.Fatal(err)
-	}
-	dir, _ := os.MkdirTemp("", "c20-one-")
-	defer os.RemoveAll(dir)
+// infrastructure settings every operator has to supply in this sandbox (directories, free ports, no scheme downloads)
+func infrastructure(l *launch, dir string) {
 	in, pub := fmt.Sprintf("127.0.0.1:%d", freePort()), fmt.Sprintf("127.0.0.1:%d", freePort())
-	if l.Env == nil {
-		l.Env = map[string]string{}
-	}
-	cfg := filepath.Join(dir, "nuts.yaml")
-	_ = os.WriteFile(cfg, []byte(strings.ReplaceAll(l.Yaml, "$DIR", dir)), 0o644)
-	for k, v := range l.Env {
-		l.Env[k] = strings.ReplaceAll(v, "$DIR", dir)
-	}
-	l.Env["NUTS_CONFIGFILE"] = cfg
 	l.Env["NUTS_DATADIR"] = filepath.Join(dir, "data")
 	l.Env["NUTS_HTTP_INTERNAL_ADDRESS"] = in
 	l.Env["NUTS_HTTP_PUBLIC_ADDRESS"] = pub
 	l.Env["NUTS_NETWORK_GRPCADDR"] = fmt.Sprintf("127.0.0.1:%d", freePort())
 	l.Env["NUTS_EVENTS_NATS_PORT"] = fmt.Sprint(freePort())
 	l.Env["NUTS_EVENTS_NATS_HOSTNAME"] = "127.0.0.1"
-	prepareIrma(filepath.Join(dir, "data"))
+	l.Env["NUTS_VERBOSITY"] = "warn"
+	l.Env["NUTS_AUTH_IRMA_AUTOUPDATESCHEMAS"] = "false"
 	l.Spec.Args = l.Args
 	l.Spec.Internal, l.Spec.Public = in, pub
-	l.Spec.DummyProbe = true
-	l.Spec.Outbound = outboundClasses()
-	start := time.Now()
-	o := runChild(dir, l)
-	fmt.Printf("took %v exit=%d refused=%v msg=%q running=%v stopped=%v exited=%v %q\n", time.Since(start), o.ExitCode, o.Refused, o.RefusalMsg, o.Running, o.Stopped, o.Exited, o.ExitedMsg)
-	for _, ln := range o.Raw {
-		fmt.Println("  ", ln)
-	}
-	if os.Getenv("VERIF_C20_OUT") != "" {
-		fmt.Println(tail(o.Output, 6000))
-	}
 }
 
-func outboundClasses() []outURL {
-	return []outURL{
-		{"https-domain", "https://partner.zorgnetwerk.nl/TOKEN"},
-		{"http-domain", "http://partner.zorgnetwerk.nl/TOKEN"},
-		{"https-ip", "https://198.51.100.7/TOKEN"},
-		{"http-ip", "http://198.51.100.7/TOKEN"},
-		{"https-localhost", "https://localhost/TOKEN"},
-		{"http-localhost", "http://localhost:8080/TOKEN"},
-		{"https-reserved", "https://partner.local/TOKEN"},
-		{"https-redirect-to-http", "https://partner.zorgnetwerk.nl/r2http/TOKEN"},
-		{"https-redirect-to-https", "https://partner.zorgnetwerk.nl/r2https/TOKEN"},
+// ---- generators ---------------------------------------------------------------------------------------------------
+
+// covering returns rows over the given value-index sizes such that every t-tuple of values of every t factors occurs (greedy, seeded).
+func covering(rnd *rand.Rand, sizes []int, t int) [][]int {
+	n := len(sizes)
+	var subsets [][]int
+	var rec func(start int, cur []int)
+	rec = func(start int, cur []int) {
+		if len(cur) == t {
+			subsets = append(subsets, append([]int{}, cur...))
+			return
+		}
+		for i := start; i < n; i++ {
+			rec(i+1, append(cur, i))
+		}
 	}
+	rec(0, nil)
+	uncovered := make([]map[int]bool, len(subsets))
+	total := 0
+	for si, ss := range subsets {
+		m := map[int]bool{}
+		cnt := 1
+		for _, f := range ss {
+			cnt *= sizes[f]
+		}
+		for k := 0; k < cnt; k++ {
+			m[k] = true
+		}
+		uncovered[si] = m
+		total += cnt
+	}
+	code := func(ss []int, row []int) int {
+		k := 0
+		for _, f := range ss {
+			k = k*sizes[f] + row[f]
+		}
+		return k
+	}
+	gain := func(row []int) int {
+		g := 0
+		for si, ss := range subsets {
+			if uncovered[si][code(ss, row)] {
+				g++
+			}
+		}
+		return g
+	}
+	var rows [][]int
+	for total > 0 {
+		var best []int
+		bestGain := -1
+		for cand := 0; cand < 40; cand++ {
+			row := make([]int, n)
+			for f := range row {
+				row[f] = rnd.Intn(sizes[f])
+			}
+			// seed the candidate with one uncovered tuple so that progress is guaranteed
+			si := rnd.Intn(len(subsets))
+			for k := 0; k < len(subsets) && len(uncovered[si]) == 0; k++ {
+				si = (si + 1) % len(subsets)
+			}
+			keys := make([]int, 0, len(uncovered[si]))
+			for k := range uncovered[si] {
+				keys = append(keys, k)
+			}
+			sort.Ints(keys)
+			k := keys[rnd.Intn(len(keys))]
+			ss := subsets[si]
+			for i := len(ss) - 1; i >= 0; i-- {
+				row[ss[i]] = k % sizes[ss[i]]
+				k /= sizes[ss[i]]
+			}
+			if g := gain(row); g > bestGain {
+				best, bestGain = row, g
+			}
+		}
+		for si, ss := range subsets {
+			k := code(ss, best)
+			if uncovered[si][k] {
+				delete(uncovered[si], k)
+				total--
+			}
+		}
+		rows = append(rows, best)
+	}
+	return rows
 }
 
-func repoDir() string {
-	if r := os.Getenv("VERIF_REPO"); r != "" {
-		return r
+func fromRow(vals [][]string, row []int, group string) config {
+	c := config{Group: group}
+	for f := range row {
+		c.V[f] = vals[f][row[f]]
 	}
-	return "/repo"
+	return c
 }
 
-// prepareIrma puts the (signed, empty) IRMA scheme the repository ships for offline development into <datadir>/irma, as an
-// operator without internet access would: with an empty directory the IRMA library downloads its default schemes at start-up.
-func prepareIrma(datadir string) {
-	src := filepath.Join(repoDir(), "development", "irma", "empty")
-	dst := filepath.Join(datadir, "irma", "empty")
-	if err := os.MkdirAll(dst, 0o755); err != nil {
-		panic(err)
+func generate(r *ev.Run, secrets []string) []config {
+	th := r.Thorough()
+	var out []config
+	// G1: product of the values the reference calls secure at start-up, strict mode on: all must run
+	secure := [][]string{
+		{"unset", "true"}, {"https-domain"}, {"full"}, values(fCrypto, th)[1:], values(fSQL, th)[1:], values(fValidators, th), {"unset", "pbdf"},
+		values(fJSONLD, th), values(fDID, th), values(fChannel, th), {"none", "env", "file"},
 	}
-	entries, err := os.ReadDir(src)
-	if err != nil {
-		panic(err)
+	sizes := func(v [][]string) []int {
+		s := make([]int, len(v))
+		for i := range v {
+			s[i] = len(v[i])
+		}
+		return s
 	}
-	for _, e := range entries {
-		data, err := os.ReadFile(filepath.Join(src, e.Name()))
+	rnd := r.Rand("g1")
+	for _, row := range covering(rnd, sizes(secure), 2) {
+		c := fromRow(secure, row, "secure-product")
+		concretise(&c, rnd, secrets)
+		out = append(out, c)
+	}
+	// G2: exactly one insecure / moved / secret-on-CLI setting on a random secure background, strict and non-strict twin
+	type dev struct {
+		f    int
+		v    string
+		nuts int // 1: didmethods must include nuts, -1: must exclude nuts
+	}
+	devs := []dev{{fURL, "http-domain", 0}, {fURL, "https-ip", 0}, {fURL, "https-localhost", 0}, {fURL, "https-reserved", 0}, {fURL, "http-localhost", 0}, {fURL, "empty", 0},
+		{fTLS, "none", 1}, {fTLS, "partial", 1}, {fTLS, "none", -1}, {fTLS, "legacy", 0}, {fCrypto, "unset", 0}, {fSQL, "unset", 0}, {fIrma, "irma-demo", 0}, {fSecret, "cli", 0}}
+	rnd = r.Rand("g2")
+	backgrounds := r.Pick(2, 8)
+	for _, d := range devs {
+		for b := 0; b < backgrounds; b++ {
+			row := make([]int, len(secure))
+			for f := range row {
+				row[f] = rnd.Intn(len(secure[f]))
+			}
+			c := fromRow(secure, row, "single-deviation")
+			c.V[d.f] = d.v
+			switch d.nuts {
+			case 1:
+				c.V[fDID] = pick(rnd, []string{"unset", "nuts", "web+nuts"})
+			case -1:
+				c.V[fDID] = "web"
+			}
+			concretise(&c, rnd, secrets)
+			if d.f == fURL && d.v == "https-reserved" {
+				// walk through the reserved names instead of drawing them
+				c.URL = urlVariants["https-reserved"][(b+int(r.Seed()))%len(urlVariants["https-reserved"])]
+			}
+			if d.f == fTLS && len(tlsVariants[d.v]) > 1 {
+				c.TLSVar = tlsVariants[d.v][(b+int(r.Seed()))%len(tlsVariants[d.v])]
+			}
+			if d.f == fSecret {
+				c.CLIFlag = secrets[(b+int(r.Seed()))%len(secrets)]
+			}
+			out = append(out, c)
+			twin := c
+			twin.V[fStrict] = "false"
+			twin.Group = "single-deviation-nonstrict-twin"
+			out = append(out, twin)
+		}
+	}
+	// G3: covering array over the complete product (pairwise; 3-wise in the thorough tier)
+	var all [][]string
+	for f := range factors {
+		all = append(all, values(f, th))
+	}
+	rnd = r.Rand("g3")
+	for _, row := range covering(rnd, sizes(all), r.Pick(2, 3)) {
+		c := fromRow(all, row, "covering-array")
+		concretise(&c, rnd, secrets)
+		out = append(out, c)
+	}
+	return out
+}
+
+// ---- the check ------------------------------------------------------------------------------------------------------
+
+type result struct {
+	c   config
+	l   launch
+	o   observation
+	try int
+}
+
+func fakeVault() *httptest.Server {
+	return httptest.NewServer(http.HandlerFunc(func(w http.ResponseWriter, req *http.Request) {
+		w.Header().Set("Content-Type", "application/json")
+		if strings.HasSuffix(req.URL.Path, "/auth/token/lookup-self") {
+			_, _ = w.Write([]byte(`{"data":{"id":"verif","policies":["default"]}}`))
+			return
+		}
+		w.WriteHeader(http.StatusNotFound)
+		_, _ = w.Write([]byte(`{"errors":[]}`))
+	}))
+}
+
+func runOne(c config, w world) result {
+	res := result{c: c}
+	for try := 1; try <= 3; try++ {
+		dir, err := os.MkdirTemp("", "c20-")
 		if err != nil {
 			panic(err)
 		}
-		if err := os.WriteFile(filepath.Join(dst, e.Name()), data, 0o644); err != nil {
-			panic(err)
+		prepareIrma(filepath.Join(dir, "data"))
+		l := materialise(c, dir, w)
+		l.Spec.DummyProbe = true
+		l.Spec.Outbound = outboundClasses()
+		infrastructure(&l, dir)
+		o := runChild(dir, l)
+		os.RemoveAll(dir)
+		res.l, res.o, res.try = l, o, try
+		decided := o.Running || o.Refused && classify(o.RefusalMsg) != "port"
+		if decided || o.Exited && o.ExitedMsg != "" {
+			break
 		}
+	}
+	return res
+}
+
+func TestCheck(t *testing.T) {
+	r := ev.Start(t, "C20", "exploration")
+	defer r.Finish()
+	r.SetRule("cases = configurations of the assembled node (strictmode x url x tls.* x crypto.storage x storage.sql.connection x auth.contractvalidators x " +
+		"auth.irma.schememanager x jsonld.contexts.remoteallowlist x didmethods x delivery channel x secret delivery), generated from the seed as (1) a pairwise covering array over the " +
+		"start-up-secure values in strict mode, (2) every single insecure/moved/CLI-secret setting on random secure backgrounds with its non-strict twin, (3) a covering array over the " +
+		"complete product (pairwise quick, 3-wise thorough); each is started with the real `nuts server` command in its own child process. Plus outbound cases (strictmode, constructor, cache, " +
+		"method, URL class, redirect chain) through the real http/client. A case is non-trivial when the child reported a decisive observation (refusal with its error, or a running node " +
+		"with its probes) / the request outcome was recorded; distinct by the full configuration (values and concrete variants) resp. the outbound case tuple.")
+	r.Require(r.Pick(60, 400), r.Pick(50, 300))
+	r.Assume("network TLS on/off is the tls.* factor: this version has no network.enabletls, TLS is on iff tls.certfile/tls.certkeyfile are set")
+	r.Assume("the IRMA scheme directory is pre-populated with the signed empty scheme the repository ships (development/irma/empty) and auth.irma.autoupdateschemas=false: there is no internet")
+	r.Assume("vaultkv is backed by a fake Vault in the check process that only answers the token self-lookup; remote hosts of outbound requests are listeners inside the child process")
+
+	secrets, nflags := secretFlags()
+	if len(secrets) == 0 {
+		r.Fatalf("no secret flags found in the server flag set")
+	}
+	r.Extra("server_flags", nflags)
+	r.Extra("secret_flags", secrets)
+	vault := fakeVault()
+	defer vault.Close()
+	w := world{vaultAddr: vault.URL, pki: filepath.Join(repoDir(), "test", "pki")}
+
+	cases := generate(r, secrets)
+	results := make([]result, len(cases))
+	var wg sync.WaitGroup
+	work := make(chan int)
+	for k := 0; k < 10; k++ {
+		wg.Add(1)
+		go func() {
+			defer wg.Done()
+			for i := range work {
+				results[i] = runOne(cases[i], w)
+			}
+		}()
+	}
+	for i := range cases {
+		work <- i
+	}
+	close(work)
+	wg.Wait()
+
+	for _, res := range results {
+		evaluate(r, res)
+	}
+	coverage(r, cases)
+	outboundDirect(t, r)
+}
+
+func witness(res result) map[string]any {
+	return map[string]any{"config": res.c, "args": res.l.Args, "env": res.l.Env, "configfile": res.l.Yaml,
+		"refused": res.o.Refused, "refusal": res.o.RefusalMsg, "running": res.o.Running, "exited": res.o.ExitedMsg, "ledger_head": head(res.o.Raw, 8), "output_tail": tail(res.o.Output, 1500)}
+}
+
+func head(s []string, n int) []string {
+	if len(s) > n {
+		return s[:n]
+	}
+	return s
+}
+
+var sampled = map[string]int{}
+
+func evaluate(r *ev.Run, res result) {
+	c, o := res.c, res.o
+	exp := reference(c)
+	mode := "strict"
+	if !c.strict() {
+		mode = "nonstrict"
+	}
+	refused := !o.Running && (o.Refused || o.Exited && o.ExitedMsg != "")
+	msg := o.RefusalMsg
+	if !o.Refused {
+		msg = o.ExitedMsg
+	}
+	if !refused && !o.Running {
+		r.Case(c.fingerprint(), false)
+		r.Inconclusive(fmt.Sprintf("child reported neither a refusal nor a running node (exit=%d timedout=%v tries=%d): %s", o.ExitCode, o.TimedOut, res.try, tail(o.Output, 400)))
+		return
+	}
+	r.Case(c.fingerprint(), true)
+	r.Count("configurations_run", 1)
+	r.Count("group_"+c.Group, 1)
+	if res.try > 1 {
+		r.Count("retries_for_ports", res.try-1)
+	}
+	if refused {
+		r.Count("refused_"+mode, 1)
+		class := classify(msg)
+		r.Count("refusal_"+class, 1)
+		r.Distinct("refusal_messages", class+"/"+mode)
+		if o.EverReachable || o.ListenerAtExit {
+			r.Violation("C20/refused-after-listening/"+class, fmt.Sprintf("start-up was refused (%s) but the HTTP interface had been reachable (status answered=%v, listener open at exit=%v)", short(msg), o.EverReachable, o.ListenerAtExit), witness(res))
+		}
+		switch {
+		case class == "other" || class == "port" || class == "none":
+			r.Inconclusive("refused for a reason outside the configuration under test: " + short(msg))
+		case !exp.allowed[class]:
+			r.Violation("C20/"+mode+"/refused-for-setting-the-reference-calls-acceptable/"+class,
+				fmt.Sprintf("%s mode: start-up refused (%s) although the documented list does not make this setting refusable here", mode, short(msg)), witness(res))
+		case !exp.mustRefuse && exp.mayRefuse:
+			for _, u := range exp.unspecified {
+				r.Unspecified(u + " -> refused")
+			}
+		}
+		if sampled["refused/"+mode] < 1 {
+			sampled["refused/"+mode]++
+			r.Sample(map[string]any{"outcome": "refused", "mode": mode, "config": c.V, "url": c.URL, "variant": c.TLSVar + c.CLIFlag, "args": res.l.Args, "error": short(msg), "status_ever_reachable": o.EverReachable})
+		}
+		return
+	}
+	// running
+	r.Count("started_"+mode, 1)
+	if exp.mustRefuse {
+		sort.Strings(exp.reasons)
+		r.Violation("C20/"+mode+"/insecure-configuration-started/"+keyOf(exp.reasons),
+			fmt.Sprintf("%s mode: the node started although: %s", mode, strings.Join(exp.reasons, "; ")), witness(res))
+	} else if exp.mayRefuse {
+		for _, u := range exp.unspecified {
+			r.Unspecified(u + " -> started")
+		}
+	}
+	if o.ConfigStrict != c.strict() {
+		r.Violation("C20/strictmode-not-effective", fmt.Sprintf("strictmode given as %q but the running node has strictmode=%v", c.V[fStrict], o.ConfigStrict), witness(res))
+	}
+	if o.ClientStrict != c.strict() {
+		r.Violation("C20/http-client-strictmode-mismatch", fmt.Sprintf("node runs with strictmode=%v but its HTTP client has StrictMode=%v", c.strict(), o.ClientStrict), witness(res))
+	}
+	if !o.Stopped {
+		r.Inconclusive("running node was not observed to stop: " + tail(o.Output, 300))
+	}
+	evaluateProbes(r, res, mode)
+	if sampled["running/"+mode] < 1 {
+		sampled["running/"+mode]++
+		r.Sample(map[string]any{"outcome": "running", "mode": mode, "config": c.V, "url": c.URL, "args": res.l.Args, "probes": len(o.Probes)})
+	}
+}
+
+func keyOf(reasons []string) string {
+	k := strings.Join(reasons, "+")
+	k = strings.NewReplacer(" ", "-", "(", "", ")", "", "'", "").Replace(k)
+	return k
+}
+
+// guardedIAM are the IAM client entry points for which the code documents validation of the remote URL with ParsePublicURL(strictmode)
+var guardedIAM = map[string]bool{"iam.ClientMetadata": true, "iam.PresentationDefinition": true, "iam.RequestObjectByGet": true, "iam.RequestObjectByPost": true,
+	"iam.AuthorizationServerMetadata": true, "iam.OpenIDConfiguration": true, "iam.OpenIdCredentialIssuerMetadata": true, "iam.PostError": true,
+	"iam.PostAuthorizationResponse": true, "iam.AccessToken": true}
+
+func plainAttempts(attempts []string) []string {
+	var out []string
+	for _, a := range attempts {
+		if strings.HasPrefix(a, "http ") || strings.HasPrefix(a, "dial-plain ") {
+			out = append(out, a)
+		}
+	}
+	return out
+}
+
+func evaluateProbes(r *ev.Run, res result, mode string) {
+	c := res.c
+	strict := c.strict()
+	dummyConfigured := c.V[fValidators] == "default" || c.V[fValidators] == "dummy"
+	seen := map[string]bool{}
+	for _, p := range res.o.Probes {
+		seen[p.Probe] = true
+		r.Count("probes", 1)
+		w := map[string]any{"probe": p, "config": c, "args": res.l.Args, "env": res.l.Env, "configfile": res.l.Yaml}
+		switch p.Probe {
+		case "dummy-session", "dummy-verify":
+			switch {
+			case strict && p.OK:
+				r.Violation("C20/strict/dummy-means-usable/"+p.Probe, "strict mode: the dummy authentication means was accepted ("+p.Probe+", validators="+c.V[fValidators]+")", w)
+			case strict:
+				r.Count("strict_dummy_refused", 1)
+			case dummyConfigured && !p.OK:
+				r.Violation("C20/nonstrict/dummy-means-refused/"+p.Probe, fmt.Sprintf("strict mode off and dummy configured, but %s was refused: %d %s", p.Probe, p.Status, p.Msg), w)
+			case dummyConfigured:
+				r.Count("nonstrict_dummy_accepted", 1)
+			}
+		case "jsonld-unlisted", "jsonld-unlisted-http":
+			switch {
+			case strict && (p.OK || len(p.Attempts) > 0):
+				r.Violation("C20/strict/unlisted-jsonld-context-fetched", fmt.Sprintf("strict mode: context %s is not on the allow list (%s) but was requested/loaded (attempts=%v)", p.URL, c.V[fJSONLD], p.Attempts), w)
+			case strict:
+				r.Count("strict_unlisted_context_refused", 1)
+			case !p.OK || len(p.Attempts) == 0:
+				r.Violation("C20/nonstrict/unlisted-jsonld-context-refused", fmt.Sprintf("strict mode off: remote context %s was not fetched: %s", p.URL, p.Err), w)
+			default:
+				r.Count("nonstrict_unlisted_context_fetched", 1)
+			}
+		case "jsonld-listed":
+			if !p.OK || len(p.Attempts) == 0 {
+				r.Violation("C20/"+mode+"/listed-jsonld-context-refused", fmt.Sprintf("context %s is on the configured allow list but was not fetched: %s", p.URL, p.Err), w)
+			} else {
+				r.Count("listed_context_fetched", 1)
+			}
+		case "jsonld-embedded":
+			if !p.OK || len(p.Attempts) > 0 {
+				r.Violation("C20/"+mode+"/embedded-jsonld-context", fmt.Sprintf("embedded context %s: err=%q attempts=%v", p.URL, p.Err, p.Attempts), w)
+			}
+		case "outbound":
+			evaluateOutbound(r, "node", strict, p, w)
+		}
+	}
+	for _, must := range []string{"dummy-session", "jsonld-unlisted", "outbound"} {
+		if !seen[must] {
+			r.Inconclusive("running node without " + must + " probe result")
+		}
+	}
+}
+
+// evaluateOutbound judges one outbound request observation (from a node's clients or from the direct part).
+func evaluateOutbound(r *ev.Run, where string, strict bool, p ledgerLine, w map[string]any) {
+	mode := "strict"
+	if !strict {
+		mode = "nonstrict"
+	}
+	attempted := len(p.Attempts) > 0
+	plain := plainAttempts(p.Attempts)
+	r.Distinct("outbound_classes_x_mode_x_attempted", fmt.Sprintf("%s/%s/%s/attempted=%v", p.Class, p.Via, mode, attempted))
+	r.Count(fmt.Sprintf("outbound_%s_%s_attempted_%v", mode, p.Class, attempted), 1)
+	if strings.HasPrefix(p.Err, "panic:") {
+		r.Violation("C20/panic/"+p.Via, "outbound request panicked: "+p.Err, w)
+		return
+	}
+	expectPlain := strings.HasPrefix(p.Class, "http-") || strings.HasSuffix(p.Class, "-to-http") || strings.Contains(p.Class, "-to-http-")
+	hostClass := strings.HasSuffix(p.Class, "-ip") || strings.HasSuffix(p.Class, "-localhost") || strings.HasSuffix(p.Class, "-reserved")
+	if strict {
+		if len(plain) > 0 {
+			r.Violation("C20/strict/plain-http-attempted/"+p.Via+"/"+p.Class, fmt.Sprintf("strict mode: a plain-HTTP request left the client (%s, %s): %v", p.Via, p.URL, plain), w)
+			return
+		}
+		if expectPlain {
+			if p.OK {
+				r.Violation("C20/strict/plain-http-reported-success/"+p.Via+"/"+p.Class, "strict mode: request to "+p.URL+" reported success", w)
+			}
+			r.Count("strict_plain_http_refused", 1)
+			return
+		}
+		if hostClass && strings.HasPrefix(p.Class, "https-") {
+			if guardedIAM[p.Via] {
+				if attempted {
+					r.Violation("C20/strict/ip-or-reserved-host-requested/"+p.Via, fmt.Sprintf("strict mode: %s sent a request to %s (%s), which ParsePublicURL(strict) is documented to refuse", p.Via, p.URL, p.Class), w)
+				} else {
+					r.Count("strict_iam_ip_or_reserved_refused", 1)
+				}
+			} else if attempted {
+				r.Unspecified("strict: https request to IP/reserved host through " + p.Via + " attempted")
+			}
+			return
+		}
+		if p.Class == "https-domain" && !attempted {
+			r.Violation("C20/strict/https-request-refused/"+p.Via, fmt.Sprintf("strict mode: https request to a public domain was not sent (%s): %s", p.Via, p.Err), w)
+		}
+		return
+	}
+	// strict mode off: the same URLs are accepted
+	if !attempted {
+		r.Violation("C20/nonstrict/request-refused/"+p.Via+"/"+p.Class, fmt.Sprintf("strict mode off: request to %s was not sent (%s): %s", p.URL, p.Via, p.Err), w)
+		return
+	}
+	if expectPlain && len(plain) == 0 {
+		r.Violation("C20/nonstrict/plain-http-not-followed/"+p.Via+"/"+p.Class, fmt.Sprintf("strict mode off: no plain-HTTP request observed for %s (%s): %v %s", p.URL, p.Via, p.Attempts, p.Err), w)
+		return
+	}
+	r.Count("nonstrict_requests_sent", 1)
+	_ = where
+}
+
+// coverage measures which option-value pairs the executed configurations contain.
+func coverage(r *ev.Run, cases []config) {
+	th := r.Thorough()
+	possible, covered := 0, 0
+	pairs := map[string]bool{}
+	for _, c := range cases {
+		for i := 0; i < len(factors); i++ {
+			for j := i + 1; j < len(factors); j++ {
+				pairs[fmt.Sprintf("%d=%s&%d=%s", i, c.V[i], j, c.V[j])] = true
+			}
+		}
+	}
+	var missing []string
+	for i := 0; i < len(factors); i++ {
+		for j := i + 1; j < len(factors); j++ {
+			for _, a := range values(i, th) {
+				for _, b := range values(j, th) {
+					possible++
+					if pairs[fmt.Sprintf("%d=%s&%d=%s", i, a, j, b)] {
+						covered++
+					} else if len(missing) < 10 {
+						missing = append(missing, factors[i].name+"="+a+" & "+factors[j].name+"="+b)
+					}
+				}
+			}
+		}
+	}
+	r.Extra("option_value_pairs_possible", possible)
+	r.Extra("option_value_pairs_covered", covered)
+	if len(missing) > 0 {
+		r.Extra("option_value_pairs_missing_sample", missing)
+	}
+	urls, variants := map[string]bool{}, map[string]bool{}
+	for _, c := range cases {
+		urls[c.URL] = true
+		variants[c.V[fTLS]+"/"+c.TLSVar] = true
+		if c.CLIFlag != "" {
+			variants["cli/"+c.CLIFlag] = true
+		}
+	}
+	r.Extra("distinct_url_values", len(urls))
+	r.Extra("distinct_tls_and_cli_variants", len(variants))
+	if covered < possible {
+		r.Fatalf("pairwise coverage incomplete: %d of %d option-value pairs (e.g. %v)", covered, possible, missing)
 	}
 }
